@@ -49,6 +49,7 @@ func runConserveC11(o Opts) *Result {
 		nW, nK, nDA := 2+rng.Intn(3), 10+rng.Intn(31), 1+rng.Intn(2)
 		rounds := 2 + rng.Intn(6)
 		res.Evaluations++
+		touch()
 		res.count("backend:" + kind)
 		var wg sync.WaitGroup
 		var writersLeft, daWhileWriting int64 = int64(nW), 0
@@ -138,6 +139,7 @@ func runConserve(o Opts) *Result {
 		nD, nDA := rng.Intn(3), 1+rng.Intn(2)
 		daRounds := 3 + rng.Intn(8)
 		res.Evaluations++
+		touch()
 		res.count("backend:" + kind)
 		var wg sync.WaitGroup
 		var okDeletes, writersLeft int64
